@@ -25,9 +25,24 @@ def gen_cases(seed, tier, n):
         a = tracegen.gen_case(seed, 2 * i, tracegen.PROFILES["diff"])
         if i % 6 == 5:
             b = copy.deepcopy(a)
+            if i % 12 == 11:
+                # the test trace is the control trace with some occurrences removed: exactly the same names, smaller counts
+                thin = True
+                for rk in b["ranks"].values():
+                    cnt = {}
+                    for e in rk["events"]:
+                        if e.get("cat") in ("cpu_op", "kernel"):
+                            cnt[e["name"]] = cnt.get(e["name"], 0) + 1
+                    keep = []
+                    for e in rk["events"]:
+                        if e.get("cat") in ("cpu_op", "kernel") and cnt.get(e["name"], 0) >= 3 and rng.random() < 0.3 and e is not rk["events"][0]:
+                            cnt[e["name"]] -= 1
+                            continue
+                        keep.append(e)
+                    rk["events"] = keep
         else:
             b = tracegen.gen_case(seed, 2 * i + 1, tracegen.PROFILES["diff"])
-        a["params"] = {"pseed": rng.randint(0, 10 ** 9), "self": i % 6 == 5}
+        a["params"] = {"pseed": rng.randint(0, 10 ** 9), "self": i % 6 == 5, "thinned": i % 12 == 11}
         if i % 4 == 2:
             # full names that share a short name (template arguments, parameter lists): with use_short_name they are ONE row
             FAM = ["gemm<float>", "gemm<double>", "gemm<int>", "helper(int)", "helper(float)", "void at::kern<int>(float*)", "void at::kern<long>(float*)"]
@@ -101,6 +116,9 @@ def _run_impl(case, d):
     crank, citer = _draw(rng, case["ranks"], s1)
     if case["params"]["self"]:
         trank, titer = crank, citer
+        if rng.random() < 0.5 and not case["params"].get("thinned"):
+            # the same trace, the same ranks, another draw of iterations: (nearly) the same names with other counts
+            titer = _draw(rng, case["ranks"], s1)[1]
     else:
         trank, titer = _draw(rng, case["ranks2"], s2)
     dev = rng.choice(["ALL", "CPU", "GPU"])
@@ -134,6 +152,12 @@ def _run_impl(case, d):
             out["ops_diff"] = {k: sorted(map(str, v)) for k, v in od.items()}
         except Exception as e:
             out["error2"] = "ops_diff: " + type(e).__name__ + ": " + str(e)[:200]
+    # the comparison reads the two traces: it must leave them as they were (the next comparison of the same objects reads them again)
+    fc2 = {r: fw.dump_frame_res(case, lc.t.traces[r], symc) for r in sorted(lc.t.traces)}
+    ft2 = {r: fw.dump_frame_res(case, lt.t.traces[r], symt) for r in sorted(lt.t.traces)}
+    key = lambda x: x["idx"]
+    out["altered"] = [nm for nm, a, b_ in (("control", fc, fc2), ("test", ft, ft2))
+                      if any(sorted(a[r], key=key) != sorted(b_.get(r, []), key=key) for r in a)]
     return {"fc": fc, "ft": ft, "params": params, "steps": [s1, s2], "out": out}
 
 
@@ -167,6 +191,13 @@ CLASSES = ["added", "deleted", "increased", "decreased", "unchanged"]
 
 
 def compare(case, impl, model):
+    pre = []
+    if isinstance(impl, dict) and isinstance(impl.get("out"), dict) and impl["out"].get("altered"):
+        pre = [f"the comparison altered the {impl['out']['altered']} trace(s) it was given (rows of the loaded frames differ afterwards)"]
+    return pre + list(_compare(case, impl, model))
+
+
+def _compare(case, impl, model):
     o = impl["out"]
     p = impl["params"]
     disc = []
@@ -191,7 +222,7 @@ def compare(case, impl, model):
         got = sorted(n for c in CLASSES for n in o["ops_diff"].get(c, []))
         if got != allnames:
             disc.append(f"ops_diff classes do not partition the names: union-with-multiplicity {got[:8]} vs names {allnames[:8]}")
-    if case["params"]["self"] and "rows" in o:
+    if case["params"]["self"] and not case["params"].get("thinned") and impl["params"].get("titer") == impl["params"].get("citer") and impl["params"].get("trank") == impl["params"].get("crank") and "rows" in o:
         for k, r in o["rows"].items():
             if r[4] != 0 or r[5] != 0 or r[6] != 0:
                 disc.append(f"self-comparison: {k} has non-zero difference {r}")
